@@ -614,6 +614,8 @@ func checkC08(p *Prog, r *Report) {
 	}
 	checkNoNilVersusEmptyLists(p, r, kp, "x/aol/types", "x/did/types", "x/pnft/types")
 	checkNoUnseparatedCompositeMapKeys(p, r, kp, "x/aol", "x/did", "x/pnft")
+	checkPnftClassDeleteGuard(p, r, kp)
+	checkPnftHandlersWriteExportedStateOnly(p, r, kp)
 	// ---------------- D5 order independence ----------------
 	for _, mod := range []string{"x/aol", "x/did", "x/pnft", "x/burn"} {
 		e := p.Func(Rel(mod), "ExportGenesis")
